@@ -69,6 +69,11 @@ def open_writer(adapter, d, opt=None):
         return RecordWriter("line://" + base + ".txt")
     if adapter == "text":
         return RecordWriter("text://" + base + ".txt")
+    if adapter == "text-noflush":
+        # the writer's own option "do not flush after every record": what is written must still be there after close()
+        from flow.record.adapter.text import TextWriter
+
+        return TextWriter(base + ".txt", flush=False)
     if adapter == "split+stream":
         return RecordWriter("split://" + base + ".records?count=2")
     if adapter == "split+jsonfile":
@@ -160,7 +165,7 @@ def independent(adapter, d):
             txt = open(f).read()
             out += [("line", int(b.split("\n")[[("n =" in x) for x in b.split("\n")].index(True)].split("=")[1])) for b in txt.split("--[ RECORD ")[1:]]
         return out
-    if adapter == "text":
+    if adapter in ("text", "text-noflush"):
         for f in files:
             for line in open(f).read().splitlines():
                 out.append(("text", int(line.split(" n=")[1].split(">")[0].split(" ")[0])))
@@ -253,8 +258,8 @@ def run_bulk(case):
         want = written
         if adapter == "sqlite":
             want = written = sorted(written, key=lambda x: x[0])
-        if adapter in ("csvfile", "line", "text"):
-            want = [(adapter.replace("file", ""), n) for _, n in written]
+        if adapter in ("csvfile", "line", "text", "text-noflush"):
+            want = [(adapter.replace("file", "").replace("-noflush", ""), n) for _, n in written]
         try:
             got = independent(adapter, d)
             if got != want:
@@ -262,7 +267,7 @@ def run_bulk(case):
                 viol.append(("C17:bulk:%s:independent-reader-differs:%s" % (label, "lost" if lost else "order-or-extra"), case, {"written": len(want), "found": len(got), "lost": lost}))
         except Exception as e:  # noqa: BLE001
             viol.append(("C17:bulk:%s:output-invalid:%s" % (label, type(e).__name__), case, {"error": repr(e)[:200]}))
-        if adapter not in ("line", "text"):
+        if adapter not in ("line", "text", "text-noflush"):
             try:
                 got = matching_reader(adapter, d)
                 wantm = [("csv/reader", n) for _, n in written] if adapter == "csvfile" else written
@@ -283,7 +288,7 @@ def run_bulk(case):
 
 def bulk_cases(tier):
     thorough = tier == "thorough"
-    multi = ["stream", "stream.gz", "stream-fileobj", "jsonfile", "sqlite", "line", "text", "archive"] + (["stream.bz2", "stream.lz4", "stream.zst"] if thorough else ["stream.zst"])
+    multi = ["stream", "stream.gz", "stream-fileobj", "jsonfile", "sqlite", "line", "text", "text-noflush", "archive"] + (["stream.bz2", "stream.lz4", "stream.zst"] if thorough else ["stream.zst"])
     single = ["avro", "csvfile"]
     sizes = [65536 - 64, 65536, 100000, 200000] + ([4096, 8192, 131072, (1 << 20) + 3] if thorough else [])
     for closing in ("with", "close", "flush+close"):
